@@ -1533,6 +1533,77 @@ def _check_novar(r, im, E0):
             r.ok(m, fn, cons + " exactly when the SCC carries no variable (dominates block generation)")
 
 
+_EXTENDERS = {'append', 'extend', 'add', 'update', 'insert', 'appendleft', 'setdefault'}
+
+
+def _check_per_scc_state(r, im, E0):
+    """per-SCC state (variable set, block list, generated lines, ...) is created inside the code path of the SCC that uses
+    it: a container that is only extended there but created before carries the contents of the previously handled SCCs"""
+    m, fn = im.mod, im.qual
+    region = None
+    p = parent(E0)
+    while p is not None and p is not im.root:
+        if isinstance(p, ast.For):
+            region = p
+        p = parent(p)
+    region = region or im.root           # Mamba: compile_scc itself runs once per SCC
+    exts = {}                            # name -> [extension statements]
+    for n in walk_no_nested(region):
+        nm = None
+        if isinstance(n, ast.Call) and isinstance(n.func, ast.Attribute) and n.func.attr in _EXTENDERS:
+            b = n.func.value
+            while isinstance(b, ast.Subscript):
+                b = b.value
+            nm = b.id if isinstance(b, ast.Name) else None
+        elif isinstance(n, ast.AugAssign) and not (isinstance(n.value, ast.Constant) and isinstance(n.value.value, (int, float))) \
+                and not isinstance(n.op, (ast.Sub, ast.Mult, ast.FloorDiv, ast.Mod)):
+            b = n.target
+            if isinstance(b, ast.Name) and not isinstance(n.value, (ast.List, ast.Tuple, ast.Set, ast.Call, ast.Subscript)):
+                b = None                 # arithmetic on a scalar counter
+            while isinstance(b, ast.Subscript):
+                b = b.value
+            nm = b.id if isinstance(b, ast.Name) else None
+        if nm:
+            exts.setdefault(nm, []).append(n)
+    loop_targets = {x.id for lp in walk_no_nested(region) if isinstance(lp, ast.For) for x in ast.walk(lp.target)
+                    if isinstance(x, ast.Name)}
+    for nm in sorted(exts):
+        if nm in loop_targets:
+            continue
+        ext_nodes = exts[nm]
+        # pure output accumulators (never read inside the region except to be extended) are loop-carried on purpose
+        ext_bases = set()
+        for n in ext_nodes:
+            b = n.func.value if isinstance(n, ast.Call) else n.target
+            while isinstance(b, ast.Subscript):
+                b = b.value
+            ext_bases.add(id(b))
+        reads = [x for x in walk_no_nested(region) if isinstance(x, ast.Name) and x.id == nm
+                 and isinstance(x.ctx, ast.Load) and id(x) not in ext_bases]
+        if not reads:
+            continue
+        bad = None
+        for n in ext_nodes:
+            st = _stmt_of(n)
+            created = [a for a in preceding_stmts(st)
+                       if isinstance(a, (ast.Assign, ast.AnnAssign)) and nm in {x.id for t in (a.targets if isinstance(a, ast.Assign) else [a.target])
+                                                                               for x in ast.walk(t) if isinstance(x, ast.Name)
+                                                                               and isinstance(x.ctx, ast.Store)}
+                       and (region is im.root or inside(a, region))]
+            if not created:
+                bad = n
+                break
+        cons = f"per-SCC container `{nm}` ({len(ext_nodes)} extension(s), {len(reads)} read(s))"
+        if bad is not None:
+            use = norm(_stmt_of(reads[0]))[:70]
+            r.bad(m, fn, cons, f"`{nm}` is only extended (`{norm(bad)[:60]}`) inside the code that handles one SCC but is created "
+                               f"outside it, so it still holds the contents of the SCCs handled before; what is decided from it "
+                               f"(`{use}`) is wrong for every SCC after the first -- e.g. a cycle that carries no variable is "
+                               f"accepted once an earlier SCC had variables", getattr(bad, 'lineno', 0))
+        else:
+            r.ok(m, fn, cons + ": created inside the per-SCC code before it is extended")
+
+
 def rule_once(repo):
     r = RuleResult('R-C11-once',
                    "an SCC that contains an update_once block, or whose edges carry no variable, is rejected with "
@@ -1544,6 +1615,7 @@ def rule_once(repo):
         for E0 in emission_stmts(im):
             _check_once(r, im, E0)
             _check_novar(r, im, E0)
+            _check_per_scc_state(r, im, E0)
     _floor(r, 4)
     return r
 
@@ -2149,6 +2221,53 @@ def _check_isolation(r, im):
     return True
 
 
+def _check_condensation_indegree(r, im):
+    """the SCC-level topological sort counts every edge of the condensation graph in the in-degree of its target,
+    whatever the kind of the source SCC"""
+    m = im.mod
+    fn = im.qual if im.outer is im.root else im.qual.rsplit('.', 1)[0]
+    _, gn, _ = _kosaraju_orientation(im)
+    loops = [lp for lp in walk_no_nested(im.outer) if isinstance(lp, ast.For) and is_method_call(strip_wrappers(lp.iter), 'items')
+             and norm(strip_wrappers(lp.iter).func.value) == gn and _pair_names(lp.target)]
+    cand = []
+    for lp in loops:
+        u, vs = _pair_names(lp.target)
+        inner = [f for s in lp.body for f in walk_no_nested(s) if isinstance(f, ast.For)
+                 and norm(strip_wrappers(f.iter)) == vs and isinstance(f.target, ast.Name)]
+        incs = [(f, a) for f in inner for s in f.body for a in walk_no_nested(s)
+                if isinstance(a, ast.AugAssign) and isinstance(a.op, ast.Add) and norm(a.value) == '1'
+                and isinstance(a.target, ast.Subscript) and norm(a.target.slice) == f.target.id]
+        if incs:
+            cand.append((lp, inner, incs))
+    if len(cand) != 1:
+        raise AnalysisError(f"{fn}: cannot locate the in-degree pre-pass over the condensation graph {gn} ({len(cand)})")
+    lp, inner, incs = cand[0]
+    f, inc = incs[0]
+    if strip_wrappers(f.iter) is not f.iter and not isinstance(f.iter, ast.Call):
+        r.bad(m, fn, f"for {norm(f.target)} in {norm(f.iter)}", "not every successor SCC is counted", f.lineno)
+    for events, outcome in Paths(max_iter=1).block(lp.body):
+        r.evaluations += 1
+        conds = ' and '.join(f"{'' if ev[2] else 'not '}({norm(ev[1])})" for ev in events
+                             if ev[0] == 'branch') or 'always'
+        reached = any(ev[0] in ('iter', 'exhaust') and ev[1] is f for ev in events)
+        if outcome == 'raise' or (outcome == 'cut' and reached):
+            continue
+        if reached and outcome in ('fall', 'continue'):
+            r.ok(m, fn, f"in-degree pre-pass, source SCC with [{conds}]: out-edges counted ({norm(inc)})")
+        else:
+            r.bad(m, fn, f"in-degree pre-pass, source SCC with [{conds}]",
+                  f"for a source SCC with [{conds}] the loop body is left before `{norm(inc)}`: its out-edges are not counted, so "
+                  f"the successor SCCs have in-degree 0, are scheduled BEFORE this SCC and are never re-evaluated after it "
+                  f"(chain trivial -> non-trivial -> trivial: in-degree of the last is 0 instead of 1; stale downstream values)",
+                  lp.lineno)
+    gs = [g for g in guards_of(inc, stop=f) if g.kind in ('if', 'exit', 'assert')]
+    if gs:
+        r.bad(m, fn, f"{norm(inc)} if {' and '.join(norm(g.test) for g in gs)}", "an edge of the condensation graph is counted "
+              "only conditionally: the target SCC can be scheduled before its predecessor", inc.lineno)
+    else:
+        r.ok(m, fn, f"for {norm(f.target)} in {norm(f.iter)}: {norm(inc)} unconditionally")
+
+
 def rule_cover(repo):
     r = RuleResult('R-C11-cover',
                    "the loop re-evaluates every block of the SCC: the BFS schedule reaches the whole SCC from a non-empty "
@@ -2160,6 +2279,7 @@ def rule_cover(repo):
             _check_collection(RuleResult('scratch', ''), im)
         if im.scc_name is None:
             raise AnalysisError(f"{im.qual}: cannot identify the SCC set")
+        _check_condensation_indegree(r, im)
         for E0 in emission_stmts(im):
             _check_nontrivial(r, im, E0)
         if not _check_isolation(r, im):
@@ -2457,13 +2577,20 @@ def rule_edges_instance(repo):
     return rule_cache_scope(repo)
 
 
+def rule_edges_methods(repo):
+    """a cycle closed through method-ordering constraints (M(a) < M(b) < U(blk)) only exists in the block graph if the method BFS
+    follows the whole chain in both directions.  Shared with C02 (R-C02-methods)."""
+    from rules.c02 import rule_methods
+    return rule_methods(repo)
+
+
 def rule_edges_instance_ro(repo):
     from rules.c02 import rule_cache_readonly
     return rule_cache_readonly(repo)
 
 
 RULES = [rule_template, rule_watch, rule_once, rule_cover, rule_siblings, rule_acyclic, rule_metaname, rule_msg,
-         rule_edges_funcs, rule_edges_overlap, rule_edges_pairing, rule_snapshot_clone, rule_edges_instance, rule_edges_instance_ro]
+         rule_edges_funcs, rule_edges_overlap, rule_edges_pairing, rule_snapshot_clone, rule_edges_instance, rule_edges_instance_ro, rule_edges_methods]
 
 EXPLANATION = (
     "Static analysis of the two cyclic-capable schedulers (DynamicSchedulePass.schedule_intra_cycle, "
@@ -2628,6 +2755,16 @@ MUTANTS = [
         dict(file=MAMBA, old="      _globals = { 's': top, 'UpblkCyclicError': UpblkCyclicError }\n", new=""),
         dict(file=MAMBA, old="    def compile_scc( i ):\n",
              new="    _globals = { 's': top, 'UpblkCyclicError': UpblkCyclicError }\n    def compile_scc( i ):\n")]),
+    _m('mamba-nontrivial-scc-out-edges-not-counted', "        nontrivial_sccs.add( u )\n      elif self.only_loop_at_top[ list(SCCs[u])[0] ]:",
+       "        nontrivial_sccs.add( u )\n        continue\n\n      if self.only_loop_at_top[ list(SCCs[u])[0] ]:", 'R-C11-cover', file=MAMBA),
+    _m('dyn-condensation-edge-counted-conditionally', "      for v in vs:\n        InD[ v ] += 1", "      for v in vs:\n        if len(SCCs[u]) == 1: InD[ v ] += 1",
+       'R-C11-cover'),
+    dict(name='dyn-variable-set-hoisted-out-of-the-scc-loop', rule='R-C11-once', edits=[
+        dict(file=DYN, old="    scc_id = 0\n    for i in scc_schedule:", new="    scc_id = 0\n    variables = set()\n    for i in scc_schedule:"),
+        dict(file=DYN, old="        scc_id += 1\n        variables = set()\n", new="        scc_id += 1\n")]),
+    dict(name='mamba-variable-set-hoisted-out-of-compile-scc', rule='R-C11', edits=[
+        dict(file=MAMBA, old="      variables = set()\n      for (u, v) in E:", new="      for (u, v) in E:"),
+        dict(file=MAMBA, old="    def compile_scc( i ):\n", new="    variables = set()\n    def compile_scc( i ):\n")]),
     # --- siblings / acyclic-only pass
     _m('mamba-bound-differs', "    if N > 100:\n", "    if N > 1000:\n", 'R-C11-siblings', file=MAMBA),
     _m('simple-incomplete-schedule-accepted', "if len(schedule) != len(V):", "if len(schedule) > len(V):", 'R-C11-acyclic',
